@@ -26,8 +26,10 @@ type RecDS struct {
 	Log   [][]WOp
 	// FailWrites: write attempts (direct or commit) with index in [FailFrom, FailFrom+FailN) fail
 	FailFrom, FailN int
-	attempts        int
-	Failed          int
+	// FailAt: write attempts (direct or commit) with these absolute indices fail as well
+	FailAt   map[int]bool
+	attempts int
+	Failed   int
 	// FailHdrFrom/FailHdrN: commits that carry header puts (flushes) with index in
 	// [FailHdrFrom, FailHdrFrom+FailHdrN) fail (transient datastore write failures)
 	FailHdrFrom, FailHdrN int
@@ -69,7 +71,7 @@ func (d *RecDS) Rebuild(k int) *RecDS {
 func (d *RecDS) attempt() error {
 	i := d.attempts
 	d.attempts++
-	if d.FailFrom >= 0 && i >= d.FailFrom && i < d.FailFrom+d.FailN {
+	if (d.FailFrom >= 0 && i >= d.FailFrom && i < d.FailFrom+d.FailN) || d.FailAt[i] {
 		d.Failed++
 		return ErrInjected
 	}
@@ -145,8 +147,8 @@ func (d *RecDS) Delete(ctx context.Context, key datastore.Key) error {
 	return d.apply([]WOp{{Del: true, Key: key.String()}})
 }
 func (d *RecDS) Sync(ctx context.Context, prefix datastore.Key) error { return nil }
-func (d *RecDS) Close() error                                        { return nil }
-func (d *RecDS) Batch(ctx context.Context) (datastore.Batch, error)  { return &recBatch{d: d}, nil }
+func (d *RecDS) Close() error                                         { return nil }
+func (d *RecDS) Batch(ctx context.Context) (datastore.Batch, error)   { return &recBatch{d: d}, nil }
 
 type recBatch struct {
 	d   *RecDS
@@ -213,7 +215,9 @@ func (t *recTxn) Get(ctx context.Context, key datastore.Key) ([]byte, error) {
 	}
 	return v, err
 }
-func (t *recTxn) Has(ctx context.Context, key datastore.Key) (bool, error) { return t.snap.Has(ctx, key) }
+func (t *recTxn) Has(ctx context.Context, key datastore.Key) (bool, error) {
+	return t.snap.Has(ctx, key)
+}
 func (t *recTxn) GetSize(ctx context.Context, key datastore.Key) (int, error) {
 	return t.snap.GetSize(ctx, key)
 }
@@ -223,11 +227,28 @@ func (t *recTxn) Query(ctx context.Context, q query.Query) (query.Results, error
 func (t *recTxn) Put(ctx context.Context, key datastore.Key, value []byte) error {
 	return datastore.ErrBatchUnsupported
 }
-func (t *recTxn) Delete(ctx context.Context, key datastore.Key) error { return datastore.ErrBatchUnsupported }
-func (t *recTxn) Commit(ctx context.Context) error                    { return nil }
-func (t *recTxn) Discard(ctx context.Context)                         {}
+func (t *recTxn) Delete(ctx context.Context, key datastore.Key) error {
+	return datastore.ErrBatchUnsupported
+}
+func (t *recTxn) Commit(ctx context.Context) error { return nil }
+func (t *recTxn) Discard(ctx context.Context)      {}
 
 var _ datastore.TxnFeature = (*RecDS)(nil)
+
+// FailRelative makes the write attempts with the given indices, counted from now on, fail
+// (nil: no scripted failures); it returns the current attempt counter.
+func (d *RecDS) FailRelative(rel []int) int {
+	d.mu.Lock()
+	defer d.mu.Unlock()
+	d.FailAt = nil
+	if len(rel) > 0 {
+		d.FailAt = map[int]bool{}
+		for _, i := range rel {
+			d.FailAt[d.attempts+i] = true
+		}
+	}
+	return d.attempts
+}
 
 // Attempts returns the number of write attempts seen so far.
 func (d *RecDS) Attempts() int {
